@@ -40,6 +40,7 @@ import lcapy
 from lcapy import expr as lexpr
 from lcapy import f as Lf, omega as Lw, F as LF, Omega as LW, t as Lt, s as Ls
 VARS = {'f': Lf, 'omega': Lw, 'F': LF, 'Omega': LW, 't': Lt}
+METHOD = {'f': 'fourier', 'omega': 'angular_fourier', 'F': 'norm_fourier', 'Omega': 'norm_angular_fourier'}
 
 
 def dt_symbols(e):
@@ -79,6 +80,23 @@ def numeric_values(e, var, xs):
     return out
 
 
+def conv_reference(case, XA, op, varB):
+    """the B-form obtained from Lcapy's own A-form by the SPECIFIED substitution var_A := (k_A / k_B) var_B,
+    k_f = 1, k_omega = 2 pi, k_F = dt, k_Omega = 2 pi dt  (isolates the conversion method from the transform)"""
+    D = Fraction(case['dt'])
+    Dq = sp.Rational(D.numerator, D.denominator)
+    kk = {'f': sp.Integer(1), 'omega': 2 * sp.pi, 'F': Dq, 'Omega': 2 * sp.pi * Dq}
+    e = XA.sympy
+    for q in dt_symbols(e):
+        e = e.subs(q, Dq)
+    tmp = sp.Symbol('__vb', real=True)
+    e = e.subs(XA.var, kk[op['var']] / kk[op['to']] * tmp).subs(tmp, varB)
+    try:
+        return {'ref_nf': [NF.nf_json(e, varB, Fraction(x0), Fraction(P), Fraction(sP)) for x0, P, sP in case['points']]}
+    except (NF.Uncanonical, ZeroDivisionError) as ex:
+        return {'ref_uncanon': str(ex)[:200]}
+
+
 def run_op(case, X0, op, cache):
     """returns dict for one op; cache: already computed Lcapy objects of this case"""
     kind = op['op']
@@ -98,7 +116,8 @@ def run_op(case, X0, op, cache):
         key = ('fwd', op['var'])
         if key not in cache:
             cache[key] = X0(VARS[op['var']])
-        return cache[key](VARS[op['to']])
+        # the conversion method itself (x(A)(A) would bypass it)
+        return getattr(cache[key], METHOD[op['to']])()
     if kind == 'sshort':
         return X0(VARS[op['var']], causal=True)
     if kind == 'viatime':
@@ -151,12 +170,16 @@ def do_case(case):
             signal.alarm(0)
             r['str'] = str(X)
             e = X.sympy
-            if e.has(sp.Integral) or e.has(sp.FourierTransform) or e.has(sp.InverseFourierTransform):
+            if e.has(sp.zoo) or e.has(sp.nan) or e.has(sp.oo):
+                r['nonfinite'] = True
+            elif e.has(sp.Integral) or e.has(sp.FourierTransform) or e.has(sp.InverseFourierTransform):
                 r['notclosed'] = True
             else:
                 try:
                     nf, e2, var = result_nf(X, case)
                     r['nf'] = nf
+                    if op['op'] == 'conv':
+                        r.update(conv_reference(case, cache[('fwd', op['var'])], op, var))
                 except NF.Uncanonical as ex:
                     r['uncanon'] = str(ex)[:200]
                 except ZeroDivisionError:
